@@ -54,6 +54,7 @@ typedef struct
 	SF_CHUNK_ITERATOR *it ;
 	void **chunk_data ;	/* payloads handed to sf_set_chunk must stay valid until close */
 	int n_chunk_data ;
+	int stdio_saved ;	/* route stdio (sf_open ("-")): read: 1 + the copy of the harness's own descriptor 0 to put back at close; write: -1; 0 = none */
 } HANDLE ;
 
 static HANDLE handles [MAX_HANDLES] ;
@@ -226,6 +227,66 @@ op_open (char **tok, int ntok)
 			if (lead > 0) lseek (h->fd, lead, SEEK_SET) ;
 			h->sf = sf_open_fd (h->fd, mode, &h->info, close_desc) ;
 			if (close_desc && h->sf != NULL) h->fd = -1 - h->fd ;	/* remember number, library owns it */
+			}
+		}
+	else if (!strcmp (route, "stdio") || (!strcmp (route, "stdiopipe") && mode == SFM_READ))
+	{	/* sf_open ("-") = psf_set_stdio: SFM_READ reads descriptor 0, SFM_WRITE writes descriptor 1, SFM_RDWR is refused.  The store is put
+		** behind descriptor 0 (a regular file, or a pipe fed by a child) / a scratch file behind descriptor 1; the harness's own streams are
+		** moved out of the way first (its transcript goes on through a copy of descriptor 1; script lines are in memory in both modes). */
+		const char *ext = kv (tok, ntok, "ext") ;
+		int fd = -1 ;
+		scratch_init () ;
+		snprintf (h->path, sizeof (h->path), "%s/%s.%s", scratch_dir, tok [2], ext ? ext : "dat") ;
+		fflush (stdout) ;
+		if (mode == SFM_READ || mode == SFM_RDWR)
+		{	/* SFM_RDWR is refused by the library; should it ever not be, it must find the scratch file behind descriptor 0, not the harness's input */
+			h->stdio_saved = 1 + fcntl (0, F_DUPFD, 100) ;
+			if (!strcmp (route, "stdiopipe"))
+			{	int pfd [2] ; pid_t pid ;
+				if (pipe (pfd) != 0) { printf ("bad-route\n") ; return ; }
+				pid = fork () ;
+				if (pid == 0)
+				{	sf_count_t done = 0 ;
+					close (pfd [0]) ;
+					signal (SIGPIPE, SIG_DFL) ;
+					sfh_arm (0) ;
+					while (done < s->len)
+					{	ssize_t r = write (pfd [1], s->buf + done, s->len - done) ;
+						if (r <= 0) break ;
+						done += r ;
+						}
+					SFH_EXIT (0) ;
+					}
+				close (pfd [1]) ;
+				fd = pfd [0] ;
+				h->path [0] = 0 ;
+				}
+			else
+			{	store_to_file (h->path, s, 0, 0) ;
+				fd = open (h->path, mode == SFM_READ ? O_RDONLY : O_RDWR) ;
+				}
+			if (fd != 0) { dup2 (fd, 0) ; close (fd) ; }
+			}
+		else if (mode == SFM_WRITE)
+		{	static int moved ;
+			if (!moved)
+			{	int hi = fcntl (1, F_DUPFD, 100) ;
+				FILE *f = hi >= 0 ? fdopen (hi, "w") : NULL ;
+				if (f == NULL) { printf ("bad-route\n") ; return ; }
+				setvbuf (f, NULL, _IOFBF, 1 << 16) ;
+				stdout = f ;		/* glibc: printf () goes through the variable (as harness/lowfd.c does) */
+				moved = 1 ;
+				}
+			fd = open (h->path, O_WRONLY | O_CREAT | O_TRUNC, 0600) ;
+			if (fd != 1) { dup2 (fd, 1) ; close (fd) ; }
+			h->stdio_saved = -1 ;		/* write: descriptor 1 is the scratch file until the close */
+			}
+		h->sf = sf_open ("-", mode, &h->info) ;
+		if (h->sf == NULL)
+		{	if (mode != SFM_WRITE && h->stdio_saved > 0) { dup2 (h->stdio_saved - 1, 0) ; close (h->stdio_saved - 1) ; h->stdio_saved = 0 ; }
+			if (mode == SFM_WRITE) { close (1) ; h->stdio_saved = 0 ; }
+			if (h->path [0]) unlink (h->path) ;
+			h->path [0] = 0 ;
 			}
 		}
 	else if (!strncmp (route, "pipe", 4) && (route [4] == 0 || route [4] == ':') && mode == SFM_READ)
@@ -412,6 +473,19 @@ op_close (char **tok)
 	ret = sf_close (h->sf) ;
 	h->sf = NULL ;
 	printf ("ret=%d", ret) ;
+	if (h->stdio_saved > 0)
+	{	/* route stdio, read: the library did not open descriptor 0 -- is it still open?  then the harness's own goes back */
+		printf (" fd_open=%d", fcntl (0, F_GETFD) != -1) ;
+		dup2 (h->stdio_saved - 1, 0) ;
+		close (h->stdio_saved - 1) ;
+		h->stdio_saved = 0 ;
+		}
+	else if (h->stdio_saved < 0)
+	{	/* route stdio, write: descriptor 1 (the scratch file) was the process's, not the handle's */
+		printf (" fd_open=%d", fcntl (1, F_GETFD) != -1) ;
+		close (1) ;
+		h->stdio_saved = 0 ;
+		}
 	if (h->path [0])
 	{	/* descriptor hygiene: was the descriptor closed exactly when the library owned it? */
 		if (h->fd >= 0)
@@ -593,6 +667,7 @@ run_line (char *line)
 	else if ((!strcmp (tok [0], "getmeta") || !strcmp (tok [0], "setcues")) && ntok >= 2) op_meta (tok, ntok) ;
 	else if (!strcmp (tok [0], "cseek")) op_cseek (tok, ntok) ;
 	else if (!strcmp (tok [0], "byterate") || !strcmp (tok [0], "fdpos")) op_query (tok, ntok) ;
+	else if (!strcmp (tok [0], "perror") || !strcmp (tok [0], "errstr") || !strcmp (tok [0], "wsync")) op_errapi (tok, ntok) ;
 	else if (!strcmp (tok [0], "iostat")) printf ("calls=%ld fired=%ld\n", fault.calls, fault.fired) ;
 	else if (!strcmp (tok [0], "store") && ntok >= 2)
 	{	STORE *s = store_get (tok [1]) ; size_t len ; unsigned char *d = unhex (ntok > 2 ? tok [2] : "", &len) ;
@@ -630,15 +705,23 @@ run_line (char *line)
 int
 cmd_script (FILE *in)
 {	char *line = NULL ; size_t cap = 0 ;
+	char **lines = NULL ; size_t n = 0, k2 ;
 	sfh_sig () ;
+	/* the whole script first: route stdio puts a sound file behind descriptor 0 while a handle is open */
 	while (getline (&line, &cap, in) > 0)
-		run_line (line) ;
+	{	lines = realloc (lines, (n + 1) * sizeof (char *)) ;
+		lines [n ++] = strdup (line) ;
+		}
 	free (line) ;
+	for (k2 = 0 ; k2 < n ; k2++)
+		run_line (lines [k2]) ;		/* nothing of the harness's own is freed while a `ledger` measurement may be open */
 	{	int k ;
 		for (k = 0 ; k < MAX_HANDLES ; k++)
 			if (handles [k].sf) { sf_close (handles [k].sf) ; handles [k].sf = NULL ; }
 		}
 	scratch_cleanup () ;
+	for (k2 = 0 ; k2 < n ; k2++) free (lines [k2]) ;
+	free (lines) ;
 	return 0 ;
 }
 
